@@ -1,7 +1,7 @@
 (* C14 - blade history policy of addition: the two fast paths.  Pinned theorems only. *)
 From Coq Require Import ZArith List Bool Reals Lra.
 From Flocq Require Import Core BinarySingleNaN.
-Require Import GV.FloatBase GV.FloatLemmas GV.AngleM GV.AngleProofs GV.GeonumM GV.GeonumProofs GV.TraitsM GV.NewProofs GV.CtorProofs GV.ClosureProofs GV.SumUpper.
+Require Import GV.FloatBase GV.FloatLemmas GV.AngleM GV.AngleProofs GV.GeonumM GV.GeonumProofs GV.TraitsM GV.NewProofs GV.CtorProofs GV.ClosureProofs GV.SumUpper GV.PiBounds GV.TrigProofs GV.DotValue GV.DirProofs GV.CommProofs.
 Open Scope R_scope.
 
 (* identical angles: the sum keeps that angle *)
@@ -83,3 +83,11 @@ Theorem C14_upper_inhabited :
   fin (atan2F trivial_libm zero zero) /\ Rabs (R_ (atan2F trivial_libm zero zero)) <= R_ PI.
 Proof. exact gadd_upper_inhabited. Qed.
 Print Assumptions C14_upper_inhabited.
+
+(* a + b and b + a: on the general path the two sums carry bit-for-bit the same angle (blade history and
+   remainder), for EVERY libm and every operand - blade history is identical for a+b and b+a *)
+Theorem C14_general_commutes : forall (L : libm) a b, aeqb (ang a) (ang b) = false -> aeqb (ang b) (ang a) = false ->
+  aeqb (add_vv (ang a) (new one one)) (ang b) || aeqb (add_vv (ang b) (new one one)) (ang a) = false ->
+  ang (gadd_vv L a b) = ang (gadd_vv L b a).
+Proof. exact gadd_general_angle_comm. Qed.
+Print Assumptions C14_general_commutes.
